@@ -26,10 +26,24 @@ import (
 )
 
 const (
-	verifDir = "/verif"
-	repoDir  = "/repo"
-	goBin    = "go1.26.8"
+	repoDir = "/repo"
+	goBin   = "go1.26.8"
 )
+
+// verifDir: the directory holding harness/, inject/, evidence/ ... - the
+// working directory when it looks like one (so that a snapshot of /verif
+// works from its own files), /verif otherwise.
+var verifDir = func() string {
+	if d := os.Getenv("VERIF_DIR"); d != "" {
+		return d
+	}
+	if wd, err := os.Getwd(); err == nil {
+		if _, err := os.Stat(filepath.Join(wd, "harness", "worker_test.go")); err == nil {
+			return wd
+		}
+	}
+	return "/verif"
+}()
 
 type tierCfg struct {
 	QuickRuns    int // total runs over all workers
@@ -61,7 +75,7 @@ func cfgFor(id string) tierCfg {
 	if c, ok := tiers[id]; ok {
 		return c
 	}
-	return tierCfg{QuickRuns: 6400, ThoroughRuns: 400000, Workers: 16}
+	return tierCfg{QuickRuns: 16000, ThoroughRuns: 400000, Workers: 16}
 }
 
 type WorkerStats struct {
